@@ -887,6 +887,13 @@ func (g *generator) next(v Value) (Value, resultType, *Exception) {
 func (g *generator) nextThrow(v interface{}) (Value, resultType, *Exception) {
 	g.enterNext()
 	ex := g.vm.handleThrow(v)
+	if ex != nil && (g.vm.prg != nil || g.vm.pc != -2) {
+		// Stopped at the frame of a finally block that was entered by return() (see enterNextFinallyFrame),
+		// not at the marker frame: the exception replaces the pending return and propagates further.
+		g.returning = nil
+		g.vm.popTryFrame()
+		ex = g.vm.handleThrow(ex)
+	}
 	if ex != nil {
 		g.vm.popTryFrame()
 		g.vm.popCtx()
